@@ -190,3 +190,13 @@ if __name__ == "__main__":
     import repo_env
     repo_env.activate()
     calibrate()
+
+
+def replay(path, build):
+    """the stored replay file holds the failing definition/behaviour; the check is deterministic in VERIF_SEED, so the
+    violation is re-decided by re-running the tier that found it with the same seed"""
+    import json
+    import os
+    rp = json.load(open(path))
+    print("replaying %s: %s" % (rp.get("property"), str(rp.get("what"))[:300]))
+    return run(os.environ.get("VERIF_TIER", "quick"), int(os.environ.get("VERIF_SEED", "20261003")), build)
